@@ -884,6 +884,12 @@ int main(int argc, char **argv) {
                 SlotBase *s = newSlot(w[2], w[3], n);
                 if (s) { slots[a].reset(s); out << "R ok\n"; s->dump(out, a); ok = true; }
             }
+        } else if (verb == "findsource") {
+            // algorithms::findSourceVertex on an arbitrary distance vector (`-` = empty)
+            std::vector<size_t> d;
+            bool good = true;
+            for (size_t k = 1; k < w.size() && good; ++k) { size_t x; if (w[k] == "-") continue; if (!ps(w[k], x)) good = false; else d.push_back(x); }
+            if (good) { out << "R " << guard([&] { return "ok source: " + std::to_string(algorithms::findSourceVertex(d)); }) << "\n"; ok = true; }
         } else if (verb == "swapbytes" && w.size() == 3) {
             std::string r;
             if (swapBytesVerb(w[1], w[2], r)) { out << "R " << r << "\n"; ok = true; }
